@@ -1,6 +1,7 @@
 """C23 Server-sent tunnel and management frames are delivered once, in order (mode F: whole history = one line)."""
 from __future__ import annotations
 
+import asyncio
 import itertools
 import logging
 
@@ -23,13 +24,17 @@ PROPERTY = "C23"
 RULE = ("request/reconnect histories (in-order streams through a lossy, duplicating, reordering channel; arbitrary and "
         "boundary counters; counters relative to the expected one; wrap 255->0; reconnects with channel change; foreign "
         "channel ids) replayed against the real UDPTunnel, DeviceManagement and UDPDeviceManagementConnection over a "
-        "stubbed datagram endpoint; one history = one model line; non-trivial = distinct history with at least one "
+        "stubbed datagram endpoint, each created with route_back False and True, the next connection of the same object "
+        "reached by server disconnect, user disconnect+connect or heartbeat failure; one history = one model line; non-trivial = distinct history with at least one "
         "delivered frame and one non-delivered request")
 TRUSTED = ["model XknxVerif.Model.SeqRecv is hand-written; tied by replaying generated histories on the real handlers",
            "harness/tstub.py: the asyncio datagram endpoint is replaced by an in-memory object; frames cross it as bytes"]
 CASE_TIMEOUT = 20.0
 
-IMPLS = {"tunnel": ["tunnel-srv", "tunnel-usr"], "mgmt": ["handler", "handler-new", "conn-srv", "conn-usr"]}
+# how the SAME object gets its next connection: server DisconnectRequest (+auto-reconnect), user disconnect()+connect(),
+# heartbeat failure; "+rb" = created with route_back=True (configuration axis added in round 2)
+IMPLS = {"tunnel": ["tunnel-srv", "tunnel-usr", "tunnel-srv+rb", "tunnel-usr+rb", "tunnel-hb", "tunnel-hb+rb"],
+         "mgmt": ["handler", "handler-new", "conn-srv", "conn-usr", "conn-srv+rb", "conn-usr+rb"]}
 
 
 def payload(i: int) -> bytes:
@@ -101,12 +106,14 @@ class Rec:
 
 
 async def _run(loop, kind, impl, ch0, events):
+    impl, _, rb = impl.partition("+")
+    route_back = rb == "rb"
     rec = Rec()
     state = {"expected": None}
     if kind == "tunnel":
         xk = XKNX()
         t = _Tunnel(xk, cemi_received_callback=rec.deliver, gateway_ip=GW[0], gateway_port=GW[1],
-                    local_ip="192.168.1.1", auto_reconnect=True, auto_reconnect_wait=1)
+                    local_ip="192.168.1.1", auto_reconnect=True, auto_reconnect_wait=1, route_back=route_back)
         gw = Gateway(t.transport, on_data=rec.frame)
         req_cls, ack_cls = TunnellingRequest, "TunnellingAck"
 
@@ -117,6 +124,17 @@ async def _run(loop, kind, impl, ch0, events):
             elif impl == "tunnel-usr":
                 await t.disconnect()
                 await t.connect()
+            elif impl == "tunnel-hb":  # the gateway stops answering the heartbeat; the tunnel gives up and reconnects
+                before = gw.connects
+                gw.answer_state = False
+                for _ in range(400):
+                    if gw.connects > before:
+                        break
+                    await asyncio.sleep(1.0)
+                gw.answer_state = True
+                await loop.settle()
+                if t._reconnect_task is not None:
+                    await t._reconnect_task
             else:  # the server closes the channel; auto-reconnect establishes a new one
                 t.transport.inject(DisconnectRequest(communication_channel_id=t.communication_channel))
                 await loop.settle()
@@ -161,7 +179,7 @@ async def _run(loop, kind, impl, ch0, events):
         async def finish():
             box["dm"].stop()
     else:
-        c = _Conn(gateway_ip=GW[0], gateway_port=GW[1], local_ip="192.168.1.1")
+        c = _Conn(gateway_ip=GW[0], gateway_port=GW[1], local_ip="192.168.1.1", route_back=route_back)
         c.got = rec.deliver
         gw = Gateway(c.transport, on_data=rec.frame)
         req_cls, ack_cls = DeviceConfigurationRequest, "DeviceConfigurationAck"
@@ -268,7 +286,8 @@ def shrink(case, msg):
             return False
         c = dict(case, op=pre + " " + ",".join(es))
         try:
-            return oracle(c, run_impl(c)) is not None
+            m2 = oracle(c, run_impl(c))   # still failing, and still at an event if the original failure was at one
+            return m2 is not None and m2.startswith("event") == str(msg).startswith("event")
         except Exception:  # noqa: BLE001
             return False
     i = 0
@@ -367,6 +386,22 @@ def generate(rng, tier):
                 for r in s:
                     h.rel(r)
                 yield case(kind, impl, h, 200)
+    # (2b) round 2: >= 1 accepted frame, a reconnect of the SAME object, then 0,1,stale,2 on the new connection, a second
+    #      reconnect, then stale-on-fresh,0,1 - every impl (incl. route_back and heartbeat-failure reconnects)
+    for kind in ("tunnel", "mgmt"):
+        for impl in IMPLS[kind]:
+            for pre in ((1, 3, 255, 256, 300) if thorough else (1, 3, 256)):
+                for same_ch in (False, True):
+                    h = Hist(9)
+                    for _ in range(pre):
+                        h.rel(0)
+                    h.connect(9 if same_ch else 10)
+                    h.rel(0); h.rel(0); h.rel(-1); h.rel(0)
+                    h.req(pre)        # what a receiver that did not reset would expect
+                    h.req(pre - 1)
+                    h.connect(11)
+                    h.rel(-1); h.rel(0); h.rel(0)
+                    yield case(kind, impl, h, 9)
     # (3) faulty-channel streams, long enough to wrap, with reconnects and foreign channels
     n = 3000 if thorough else 80
     for j in range(n):
